@@ -8,21 +8,43 @@ worker truncates its slice (reported in the evidence, never exit 0 after a kill)
 PLANS = {
     "C04": {
         "quick": [
-            {"name": "L1-interp", "layer": "L1", "mode": "interp", "runs": 24000, "workers": 4, "budget_s": 150},
-            {"name": "L1-jit-h4", "layer": "L1", "mode": "jit", "hook_limit": 4, "variant": "h4", "runs": 20000, "workers": 1, "budget_s": 150},
-            {"name": "L1-jit-h7", "layer": "L1", "mode": "jit", "hook_limit": 7, "variant": "h7", "runs": 20000, "workers": 1, "budget_s": 150},
-            {"name": "L1-jit-h64", "layer": "L1", "mode": "jit", "hook_limit": 64, "variant": "h64", "runs": 12000, "workers": 1, "budget_s": 150},
+            {"name": "L1-interp", "layer": "L1", "mode": "interp", "runs": 16000, "workers": 2, "budget_s": 150},
+            {"name": "L1-jit-h4", "layer": "L1", "mode": "jit", "hook_limit": 4, "variant": "h4", "runs": 13000, "workers": 1, "budget_s": 150},
+            {"name": "L1-jit-h7", "layer": "L1", "mode": "jit", "hook_limit": 7, "variant": "h7", "runs": 15000, "workers": 1, "budget_s": 150},
+            {"name": "L1-jit-h64", "layer": "L1", "mode": "jit", "hook_limit": 64, "variant": "h64", "runs": 7500, "workers": 1, "budget_s": 150},
             {"name": "L1-jit-h257", "layer": "L1", "mode": "jit", "hook_limit": 257, "variant": "h257", "runs": 4000, "workers": 1, "budget_s": 150},
-            {"name": "L1-jit-real", "layer": "L1", "mode": "jit", "variant": "real", "runs": 300, "workers": 2, "budget_s": 150},
+            {"name": "L1-jit-real", "layer": "L1", "mode": "jit", "variant": "real", "runs": 150, "workers": 1, "budget_s": 150},
+            {"name": "L2-interp", "layer": "L2", "mode": "interp", "runs": 3600, "workers": 4, "budget_s": 170},
+            {"name": "L2-jit-h7-token", "layer": "L2", "mode": "jit", "hook_limit": 7, "variant": "h7tok", "runs": 1500, "workers": 1, "budget_s": 170,
+             "params": {"kinds": ["token"], "max_wide": 2, "kernels": ["flat", "geometric"], "masks": ["none", "nullify"]}},
+            {"name": "L2-jit-h16-multiset", "layer": "L2", "mode": "jit", "hook_limit": 16, "variant": "h16multi", "runs": 1500, "workers": 1, "budget_s": 170,
+             "params": {"kinds": ["multiset"], "max_wide": 2, "kernels": ["flat", "geometric"], "masks": ["none"]}},
+            {"name": "L2-jit-h64-timed", "layer": "L2", "mode": "jit", "hook_limit": 64, "variant": "h64timed", "runs": 1500, "workers": 1, "budget_s": 170,
+             "params": {"kinds": ["timed"], "max_wide": 2, "kernels": ["flat", "geometric"], "masks": ["none"]}},
+            {"name": "L2-jit-h7-ngram", "layer": "L2", "mode": "jit", "hook_limit": 7, "variant": "h7ngram", "runs": 10, "workers": 1, "budget_s": 170,
+             "params": {"kinds": ["ngram"], "max_wide": 1, "kernels": ["flat"], "masks": ["none"], "no_em": True}},
+            {"name": "L2-jit-real-big", "layer": "L2", "mode": "jit", "variant": "realbig", "runs": 54, "workers": 3, "budget_s": 170,
+             "params": {"kinds": ["token", "multiset", "timed"], "max_wide": 2, "kernels": ["flat"], "masks": ["none"], "big": True}},
         ],
         "thorough": [
-            {"name": "L1-interp", "layer": "L1", "mode": "interp", "runs": 400000, "workers": 4, "budget_s": 2400},
+            {"name": "L1-interp", "layer": "L1", "mode": "interp", "runs": 300000, "workers": 2, "budget_s": 2400},
             {"name": "L1-jit-h4", "layer": "L1", "mode": "jit", "hook_limit": 4, "variant": "h4", "runs": 300000, "workers": 1, "budget_s": 2400},
             {"name": "L1-jit-h7", "layer": "L1", "mode": "jit", "hook_limit": 7, "variant": "h7", "runs": 300000, "workers": 1, "budget_s": 2400},
             {"name": "L1-jit-h16", "layer": "L1", "mode": "jit", "hook_limit": 16, "variant": "h16", "runs": 200000, "workers": 1, "budget_s": 2400},
             {"name": "L1-jit-h64", "layer": "L1", "mode": "jit", "hook_limit": 64, "variant": "h64", "runs": 150000, "workers": 1, "budget_s": 2400},
             {"name": "L1-jit-h257", "layer": "L1", "mode": "jit", "hook_limit": 257, "variant": "h257", "runs": 60000, "workers": 1, "budget_s": 2400},
             {"name": "L1-jit-real", "layer": "L1", "mode": "jit", "variant": "real", "runs": 6000, "workers": 2, "budget_s": 2400},
+            {"name": "L2-interp", "layer": "L2", "mode": "interp", "runs": 90000, "workers": 5, "budget_s": 2600},
+            {"name": "L2-jit-h7-token", "layer": "L2", "mode": "jit", "hook_limit": 7, "variant": "h7tok", "runs": 30000, "workers": 1, "budget_s": 2600,
+             "params": {"kinds": ["token"], "max_wide": 3, "kernels": ["flat", "harmonic", "geometric"], "masks": ["none", "mask", "nullify"]}},
+            {"name": "L2-jit-h16-multiset", "layer": "L2", "mode": "jit", "hook_limit": 16, "variant": "h16multi", "runs": 30000, "workers": 1, "budget_s": 2600,
+             "params": {"kinds": ["multiset"], "max_wide": 3, "kernels": ["flat", "geometric"], "masks": ["none", "nullify"]}},
+            {"name": "L2-jit-h64-timed", "layer": "L2", "mode": "jit", "hook_limit": 64, "variant": "h64timed", "runs": 30000, "workers": 1, "budget_s": 2600,
+             "params": {"kinds": ["timed"], "max_wide": 3, "kernels": ["flat", "geometric"], "masks": ["none", "nullify"]}},
+            {"name": "L2-jit-h4-ngram", "layer": "L2", "mode": "jit", "hook_limit": 4, "variant": "h4ngram", "runs": 200, "workers": 1, "budget_s": 2600,
+             "params": {"kinds": ["ngram"], "max_wide": 2, "kernels": ["flat"], "masks": ["none"]}},
+            {"name": "L2-jit-real-big", "layer": "L2", "mode": "jit", "variant": "realbig", "runs": 1600, "workers": 3, "budget_s": 2600,
+             "params": {"kinds": ["token", "multiset", "timed"], "max_wide": 2, "kernels": ["flat"], "masks": ["none"], "big": True}},
         ],
     },
 }
@@ -65,7 +87,11 @@ ASSUMPTIONS = {
 # probes that must have fired at least once per tier, otherwise the run is a harness error
 REQUIRED_PROBES = {
     "C04": {
-        "quick": ["growth", "depth>=2", "path.merge_all_sum_duplicates", "volume>capacity"],
-        "thorough": ["growth", "depth>=3", "path.merge_all_sum_duplicates", "volume>capacity"],
+        "quick": ["growth", "depth>=2", "path.merge_all_sum_duplicates", "volume>capacity", "path.coo_increase_mem",
+                  "interleaved", "empty-chunk", "transform-larger-than-fit", "est.real-threshold-reached",
+                  "est.real-threshold-growth"],
+        "thorough": ["growth", "depth>=3", "path.merge_all_sum_duplicates", "volume>capacity", "path.coo_increase_mem",
+                     "interleaved", "empty-chunk", "transform-larger-than-fit", "est.real-threshold-reached",
+                     "est.real-threshold-growth", "est.8-sort-rounds"],
     },
 }
